@@ -232,8 +232,10 @@ def main():
     rep = Report(PID, 'model_checking', 'symbolic execution of the emitted assembly (z3) at every stack size with access-region monitors and tight-vs-generous differential')
     quick = rep.tier == 'quick'
     cases = F.alloc_templates() + F.scope_templates()[::4 if quick else 1] + F.seq_enumerated()[::4 if quick else 1] + F.time_enumerated(rep.tier)[::12 if quick else 2]
+    # constant indices (negative, equal to and past the length): the bounds check may be decided at compile time, never dropped
+    cases += [c for c in F.fault_templates() if 'idx-const' in c.name and (not quick or any(k in c.name for k in ('-neg-', '-len-', '-past-', 'zero-length', 'fixed-global')))]
     if not quick:
-        cases += F.seq_random(rep.seed, 150) + F.time_random(rep.seed, 100) + F.fault_templates()[::2] + F.time_examples()
+        cases += F.seq_random(rep.seed, 150) + F.time_random(rep.seed, 100) + [c for c in F.fault_templates()[::2] if 'idx-const' not in c.name] + F.time_examples()
     widths = [2] if quick else [2, 3, 4, 8]
     tasks = []
     for W in widths:
@@ -259,7 +261,7 @@ def main():
     run_tasks(rep, tasks, worker=sweep_task, limit=900, on_result=on_result)
     # layer 3: the Tracker arithmetic behind every guard constant (CrossHair, symbolic operation sequences)
     from hv import chx
-    chx.run_into(rep, 'c04', per_condition_timeout=120 if quick else 1200)
+    chx.run_into(rep, 'c04', per_condition_timeout=400 if quick else 1200)
     rep.cov['stack_sizes_explored'] = nsizes[0]
     rep.cov['slowest_templates'] = sorted(slow, reverse=True)[:8]
     rep.cov['first_non_overflow_size_words'] = firsts
